@@ -60,7 +60,7 @@ import nfc.tag
 import nfc.tag.tt3
 
 from vlib import p2p, ref_llcp, simdev, vsched
-from vlib.engine import Leg, Violation, unexpected, twin_O
+from vlib.engine import Leg, Violation, unexpected, twin_O, twin_env
 from props import c11
 
 PROPERTY = "C07"
@@ -2288,3 +2288,10 @@ LEGS += [
     twin_O(_by['pdu'], quick=700, thorough=7000),
     twin_O(_by['t3emu'], quick=1000, thorough=10000),
 ]
+
+# the same searches with every nfc logger enabled down to the lowest level
+# (code that only runs, or only evaluates its arguments, when logging is on)
+_byl = dict((lg.name, lg) for lg in LEGS)
+LEGS += [twin_env(_byl[n], "log", {"VERIF_LOG": "debug"}, quick=q, thorough=t,
+                  shards_quick=2)
+         for n, q, t in [('llc', 150, 1500), ('dep-tgt', 500, 5000), ('snep-srv', 60, 600)] if n in _byl]
